@@ -11,8 +11,10 @@ P1  TLC checks, on every reachable state of the implementation-shaped driver
     bounded overtaking); the contract's own invariants on its own graph; and
     under weak fairness that a woken task is eventually polled although the
     others re-wake themselves forever (and that a LIFO variant fails this).
-P2  every between-steps state of the driver graph yields a behaviour (task
-    scripts + external schedule); the harness runs it on the real
+P2  every between-steps state of the driver graph (thorough: every
+    TRANSITION of the base graph, i.e. every (state, action) pair; for the
+    larger graphs every stalled state) yields a behaviour (task scripts +
+    external schedule); the harness runs it on the real
     yash_executor with instrumented futures.  Behaviours whose observed event
     sequence equals the driver's prediction need no further judgement (the
     driver refines the contract, TLC-checked); every other one is validated
@@ -34,7 +36,7 @@ PKG = "yv-c15"
 # (cfg, channels of the config, coverage?)
 GEN = {
     "quick": [("Gen_Executor_quick.cfg", 2, True)],
-    "thorough": [("Gen_Executor_quick.cfg", 2, True), ("Gen_Executor_pinned.cfg", 2, False),
+    "thorough": [("Gen_Executor_trans.cfg", 2, True), ("Gen_Executor_pinned.cfg", 2, False),
                  ("Gen_Executor_b3.cfg", 2, False), ("Gen_Executor_t4.cfg", 2, False),
                  ("Gen_Executor_t4b3.cfg", 1, False)],
 }
@@ -246,7 +248,7 @@ def run(tier):
         "evaluations": p2_events + rst["events"],
         "distinct_nontrivial": behaviours,
         "rule": "one behaviour (external schedule + task scripts) per distinct between-steps state of the driver "
-                "graph, each run on the real executor and compared event by event (incl. wake_count) with the "
+                "graph (Gen_*_trans: per transition; pinned/b3/t4b3: per stalled state), each run on the real executor and compared event by event (incl. wake_count) with the "
                 "TLC-checked driver; unequal ones and all random systems validated by TLC against ExecutorAbs",
         "exhaustive": True,
         "configs": per_cfg,
